@@ -14,4 +14,8 @@ CHECKS = {
    technique="exhaustive enumeration of structural inputs to the real subspace_minimization (fed the reference Cauchy point), compared with a dense box-truncated Newton reference on every input",
    text="Same enumeration as C08; the real subspace_minimization receives the reference Cauchy point so that verdicts are independent of C08; every free/active partition for n<=3 occurs and is counted.",
    note="dense BFGS recursion trusted; 1e-8 relative"),
+ "C10": dict(engine="E5 explicit-state BFS with reference model", level="model_checking", ref="DESIGN.md 4/C10",
+   technique="explicit-state BFS over abstract memory states with every edge executed on the real update routine by history replay, plus exhaustive enumeration of all candidate sequences to a depth bound",
+   text="The correction-pair memory has a small abstract state (letters of the stored pairs). All states x 7 candidate letters (4 accepted, 3 rejected kinds) are explored for maxcor 1..3; every edge is executed on a fresh real object, the implementation's read-back state must equal the model's, and the full oracle (compact == dense BFGS, SPD, secant, bound on pairs, curvature of stored pairs, rejected => bitwise untouched, oldest evicted) is evaluated after every step. All sequences to depth maxcor+2 / 5 validate the canonicalisation; 40-step sequences cover maxcor 1..10, n<=12; updates intercepted in real runs cover the solver's own call pattern.",
+   note="dense textbook BFGS recursion is the specification; 1e-8 relative; conditioning above 1e4 excluded from the intercepted runs (both sides of the comparison lose digits there)"),
 }
